@@ -1692,11 +1692,21 @@ iwrc _jbl_increment_node_data(struct jbl_node *target, struct jbl_node *value) {
     return JBL_ERROR_PATCH_INVALID_VALUE;
   }
   if (target->type == JBV_I64) {
+    int64_t inc;
     if (value->type == JBV_I64) {
-      target->vi64 += value->vi64;
+      inc = value->vi64;
     } else {
-      target->vi64 += (int64_t) value->vf64;
+      // (int64_t) of a double outside the int64 range (or NaN) is undefined
+      if (!((value->vf64 >= -9223372036854775808.0) && (value->vf64 < 9223372036854775808.0))) {
+        return JBL_ERROR_PATCH_INVALID_VALUE;
+      }
+      inc = (int64_t) value->vf64;
     }
+    // signed overflow is undefined: an increment leaving the int64 range is refused, the target keeps its value
+    if (((inc > 0) && (target->vi64 > INT64_MAX - inc)) || ((inc < 0) && (target->vi64 < INT64_MIN - inc))) {
+      return JBL_ERROR_PATCH_INVALID_VALUE;
+    }
+    target->vi64 += inc;
     return 0;
   } else if (target->type == JBV_F64) {
     if (value->type == JBV_F64) {
